@@ -17,6 +17,9 @@ def run_one(prop: str, tier: str, replay: str | None = None) -> int:
     prog = None
     try:
         mod = importlib.import_module(f"tlverif.rules.{prop.lower()}")
+        from .rules import common as _common
+
+        _common.THOROUGH = tier == "thorough"
         prog = model.Program()
         mod.run(prog, rep, tier)
         if replay:
@@ -78,6 +81,16 @@ def main(argv=None) -> int:
         from . import selftest
 
         code = selftest.main(a.jobs, only=a.prop.upper())
+        # record what the both-ways self-test covered in this property's evidence
+        import json
+        import pathlib
+
+        ev = pathlib.Path(__file__).resolve().parent.parent / "evidence" / f"{a.prop.upper()}.json"
+        if ev.exists() and selftest.LAST:
+            d = json.loads(ev.read_text())
+            d["coverage"]["selftest"] = dict(selftest.LAST)
+            d["coverage"]["explanation"] += " Thorough tier: extended catalogue / signature bounds, then every single-edit variant of this property (break variants must be reported with the expected obligation, behaviour-neutral variants must stay silent)."
+            ev.write_text(json.dumps(d, indent=1, default=str) + "\n")
     return code
 
 
